@@ -52,8 +52,8 @@ func genC01(rt *rapid.T) c01Prog {
 		for j := 0; j < n; j++ {
 			a := c01Act{
 				Client: rapid.IntRange(0, 7).Draw(rt, "client"),
-				Kind: rapid.SampledFrom([]string{"pub", "pub", "pub", "pub", "pubne", "obo", "leave", "resub", "getdata", "getdesc", "getsub", "disc"}).Draw(rt, "kind"),
-				Topic: rapid.IntRange(0, 3).Draw(rt, "topic"),
+				Kind:   rapid.SampledFrom([]string{"pub", "pub", "pub", "pub", "pubne", "obo", "leave", "resub", "getdata", "getdesc", "getsub", "disc"}).Draw(rt, "kind"),
+				Topic:  rapid.IntRange(0, 3).Draw(rt, "topic"),
 			}
 			if rapid.IntRange(0, 5).Draw(rt, "delayed") == 0 {
 				a.Delay = rapid.IntRange(1, 7).Draw(rt, "delay")
